@@ -17,6 +17,19 @@ CHECKS = {
             'numpy.float16 and struct are the reference; RGB565 big-endian field layout is restated from the firmware.'),
 }
 
+CHECKS.update({
+    'C07': ('exploration', 'DESIGN.md 3/C07', 'runner',
+            'Hypothesis-generated registration tables, packet sequences and in-dispatch add/remove/raise behaviours; real dispatcher loop run on the harness thread; independent matcher oracle',
+            'The real _IncomingPacketHandler.run() and Caller are executed against generated tables/packets/behaviours and compared with an '
+            'independent matcher (exactly-once, registration order, isolation of raising callbacks, removal affects only that registration).',
+            'Registrations are distinct 5-tuples; registrations added/removed during a dispatch may or may not see that packet.'),
+    'C08': ('exploration', 'DESIGN.md 3/C08', 'refcodec',
+            'Hypothesis-generated commands/arguments/protocol versions against an independent wire-layout table; exhaustive 16x4 header enumeration',
+            'Every public command is called with generated arguments (boundary/special floats, ints beyond field ranges, all flag combinations) '
+            'for protocol versions on both sides of each switch and X-mode on/off; the emitted packet is decoded with an independent table.',
+            'The wire table restates the pinned sources (drift detector); firmware itself is not available offline.'),
+})
+
 ALL = ['C%02d' % i for i in range(1, 21)]
 
 PENDING_REASON = 'check not built yet in this round (DESIGN.md 4.1 build order); the technique applies and the property will be claimed once its check exists'
